@@ -410,12 +410,17 @@ Fixpoint first_line (b : bytes) : option bytes :=
               else match first_line r with Some l => Some (c :: l) | None => None end
   end.
 
-(* a nested builddir lookup while builddir is being computed never returns in C *)
+(* a nested builddir lookup while builddir is being computed: in the shipped code it never returns
+   (config_default_build_dir calls itself without bound, D18); guarded against re-entry
+   (findings/D18_builddir_reentry.diff) it has no value *)
 Definition bd_diverge (c : cfg) (name : bytes) : cfg * option value := (set_abort c, None).
+Definition bd_quiet (c : cfg) (name : bytes) : cfg * option value := (c, None).
+Definition bd_nested (T : tables) : cfg -> bytes -> cfg * option value :=
+  if t_builddir_guard T then bd_quiet else bd_diverge.
 
 (* config_default_build_dir *)
 Definition build_dir (E : env) (T : tables) (c : cfg) (name : bytes) : cfg * option value :=
-  let '(c1, r) := sinterp_str (t_depth_limit T) false (lookup E T bd_diverge false) c running_tmpl in
+  let '(c1, r) := sinterp_str (t_depth_limit T) false (lookup E T (bd_nested T) false) c running_tmpl in
   match r with
   | IErr e => (add_diag c1 (mk_diag (ipath T) 0 (M_interp e)), None)
   | IOk path =>
